@@ -302,12 +302,67 @@ String Var::toString() const
 	return r;
 }
 
+// true if this is an array or object that no other Var shares and that holds arrays or objects itself
+
+bool Var::ownsNested() const
+{
+	if (_type == ARRAY && _a->rc() == 1)
+	{
+		for (int i = 0; i < _a->length(); i++)
+			if ((*_a)[i]._type == ARRAY || (*_a)[i]._type == OBJ)
+				return true;
+	}
+	else if (_type == OBJ && _o->kv().rc() == 1)
+	{
+		for (int i = 0; i < _o->kv().length(); i++)
+			if (_o->kv()[i].value._type == ARRAY || _o->kv()[i].value._type == OBJ)
+				return true;
+	}
+	return false;
+}
+
+// moves the elements or properties of this array or object that hold nested containers of their own to `pending`,
+// leaving none in their place (the others are released by the container itself, one level deep)
+
+void Var::detachNested(Array<Var>& pending)
+{
+	int n = (_type == ARRAY) ? _a->length() : _o->kv().length();
+	for (int i = 0; i < n; i++)
+	{
+		Var& x = (_type == ARRAY) ? (*_a)[i] : _o->kv()[i].value;
+		if (x.ownsNested())
+		{
+			pending << x; // a second handle: x.free() below only drops a reference
+			x.free();
+		}
+	}
+}
+
 void Var::free()
 {
 	switch(_type) {
 	case STRING: DEL_STRING(_s); break;
-	case ARRAY: DEL_ARRAY(_a); break;
-	case OBJ: DEL_DIC(_o); break;
+	case ARRAY:
+	case OBJ:
+		// Release the descendants iteratively. Letting each level destroy the next one recursed once per
+		// nesting level and exhausted the call stack on deeply nested values.
+		if (ownsNested())
+		{
+			Array<Var> pending;
+			detachNested(pending);
+			while (pending.length() > 0)
+			{
+				Var e = pending.last();
+				pending.resize(pending.length() - 1);
+				if (e.ownsNested()) // this is the last handle: take over its nested containers
+					e.detachNested(pending);
+			}
+		}
+		if (_type == ARRAY)
+			DEL_ARRAY(_a);
+		else
+			DEL_DIC(_o);
+		break;
 	default: break;
 	}
 	_type=NONE;
